@@ -41,7 +41,11 @@ RULE_ADDED = (
               "ll answering with the device's data. "
               ' '
               'Round 13: uiHeartbeat requests in a row with related values (next of a counter, '
-              'same, one byte changed, upper case). ')
+              'same, one byte changed, upper case). '
+              ' '
+              'Round 14: slow answers (2.5..61 s) over the TCP transports; a heartbeat after wh'
+              'ich the device is locked in the bootloader and its signer does not come up whate'
+              'ver is done. ')
 RULE = RULE + " " + RULE_ADDED.strip()
 ASSUMPTIONS = [
     "simulated device + fake HID/TCP transports are trusted; firmware selectors are parsed "
@@ -318,8 +322,15 @@ def run_state(acc, cseed, platform, fw, nets, cmpf, Stack, SimDevice):
     if platform != "ledger":
         return
     trans = rng.choice(["normal", "normal", "stuck_signer", "stuck_hb", "to_bootloader",
-                        "back_to_bootloader", "start_in_hb", "hb_error"])
+                        "back_to_bootloader", "start_in_hb", "hb_error",
+                        "back_to_bootloader_for_good"])
     cfg = {}
+    if trans == "back_to_bootloader_for_good":
+        # after the heartbeat the device shows up locked in the bootloader - everything in
+        # order there, the PIN would be taken - and whatever is done about it, the signer
+        # does not come up: no success is reported with the device left like that
+        cfg["hb_back_mode"] = MODE_BOOTLOADER
+        cfg["post_exit_mode"] = MODE_BOOTLOADER
     if trans == "stuck_signer":
         cfg["hb_exit_mode"] = MODE_SIGNER
     elif trans == "to_bootloader":
